@@ -649,4 +649,288 @@ Section Main.
     cbn [vals_ok cast_to_task budget_list forallb]. now rewrite Hv.
   Qed.
 End Main.
+
+(* ================================================================================== *)
+(* 7. the two formats; Rust's Unicode table; Han                                        *)
+Lemma plain_sent_side ia E : alnum_facts ia = true -> alnum_facts2 ia = true -> plain E ->
+  parse_ok E = true /\ sent_ok E = true /\ fmt_tables_ok E 1 1 = true /\ fmt_space_ok E = true /\ arms_cover E = true /\
+  unamb_fmt_ok ia E = true /\ final_fmt_ok ia E = true.
+Proof.
+  intros H H2 HE. destruct (plain_side ia E H HE) as (H1 & H3 & H4 & H5).
+  destruct shipped_fmt_tables_ok as (Ha & Hl & _).
+  destruct HE as [->| ->]; repeat split; auto;
+    try (apply sent_ok_shipped; unfold shipped, shipped_formats; cbn [In]; tauto);
+    [now apply final_fmt_ok_ascii | now apply final_fmt_ok_latex].
+Qed.
+
+Section Plain.
+  Variable ia : N -> bool.
+  Variable E : efmt.
+  Hypothesis Hia : alnum_facts ia = true.
+  Hypothesis Hia2 : alnum_facts2 ia = true.
+  Hypothesis HE : plain E.
+  Variable F : Type.
+  Variable fshow : F -> str.
+  Variable fread : str -> option F.
+  Variable fzero : F.
+  Variables in01 okn : F -> bool.
+  Hypothesis H_empty : fread [] = None.
+  Hypothesis H_zero : in01 fzero = true.
+  Hypothesis H_ok01 : forall x, okn x = true -> in01 x = true.
+  Hypothesis H_rt : forall x, okn x = true -> fread (fshow x) = Some x.
+  Hypothesis H_cs : forall x, okn x = true -> fshow x <> [] /\ Forall (fun c => is_float_char c = true) (fshow x).
+
+  Theorem parse_wf_input_plain (s : snarsese) (v : narsese F) :
+    odesugar_narsese F fread in01 s = Some v -> satoms_ok ia E (sn_term s) = true -> follows_ok s = true ->
+    exists st, parse_narsese F fread fzero in01 ia E (render_narsese E s) = POk v st.
+  Proof.
+    destruct (plain_sent_side ia E Hia Hia2 HE) as (H1 & H2 & H3 & H4 & H5 & H6 & H7).
+    now apply parse_wf_input.
+  Qed.
+
+  (* C09 in its general form: two surface inputs that differ only in spacing (equal erasures) parse to the
+     same value -- not only formatter output: derived copulas, any readable number texts, ... *)
+  Theorem C09_inputs_plain (s s' : snarsese) (v : narsese F) :
+    erase s = erase s' ->
+    odesugar_narsese F fread in01 s = Some v -> satoms_ok ia E (sn_term s) = true -> follows_ok s = true ->
+    (exists st, parse_narsese F fread fzero in01 ia E (render_narsese E s) = POk v st) /\
+    (exists st, parse_narsese F fread fzero in01 ia E (render_narsese E s') = POk v st).
+  Proof.
+    intros He Hv Ht Hf. split; [now apply parse_wf_input_plain|]. apply parse_wf_input_plain.
+    - now rewrite <- odesugar_narsese_erase, <- He, odesugar_narsese_erase.
+    - pose proof (f_equal sn_term He) as Hte. cbn [erase sn_term] in Hte.
+      now rewrite <- (satoms_ok_shape ia E _ _ (erase_t_same_shape _ _ Hte)).
+    - now rewrite <- follows_ok_erase, <- He, follows_ok_erase.
+  Qed.
+
+  Theorem C01_value_plain (v : narsese F) :
+    wf_value ia E v = true -> vals_ok F okn v = true ->
+    exists st, parse_narsese F fread fzero in01 ia E (fmt_narsese F fshow E v) = POk v st.
+  Proof.
+    destruct (plain_sent_side ia E Hia Hia2 HE) as (H1 & H2 & H3 & H4 & H5 & H6 & H7).
+    now apply (C01_value F fshow fread fzero in01 okn ia E 1 1).
+  Qed.
+
+  (* the formatter's output is the rendering of the canonical surface input (spacing: one space keyword
+     after each separator, around copulas, between the items; none elsewhere) ... *)
+  Theorem value_canonical (v : narsese F) : wf_value ia E v = true ->
+    fmt_narsese F fshow E v = render_narsese E (canon_narsese F fshow 1 1 (sst E (nv_term v)) v).
+  Proof.
+    destruct (plain_sent_side ia E Hia Hia2 HE) as (H1 & H2 & H3 & H4 & H5 & H6 & H7). intros Hw.
+    apply (fmt_narsese_canon F fshow E 1 1 H3).
+    now destruct (value_term_facts F ia E H4 H5 v Hw).
+  Qed.
+
+  (* ... and EVERY surface input with the same erasure -- the same tokens with any number of space keywords
+     at every boundary, none included -- parses to the value *)
+  Theorem C09_value_plain (v : narsese F) (s' : snarsese) :
+    wf_value ia E v = true -> vals_ok F okn v = true ->
+    erase s' = erase (canon_narsese F fshow 1 1 (sst E (nv_term v)) v) ->
+    exists st, parse_narsese F fread fzero in01 ia E (render_narsese E s') = POk v st.
+  Proof.
+    destruct (plain_sent_side ia E Hia Hia2 HE) as (H1 & H2 & H3 & H4 & H5 & H6 & H7).
+    now apply (C09_value F fshow fread fzero in01 okn ia E 1 1).
+  Qed.
+
+  Lemma erase_idem_t : forall t, erase_t (erase_t t) = erase_t t.
+  Proof.
+    assert (Hl : forall items, Forall (fun t => erase_t (erase_t t) = erase_t t) items ->
+              map erase_t (map erase_t items) = map erase_t items).
+    { induction 1 as [|x l Hx _ IH]; [reflexivity|]. cbn [map]. now rewrite Hx, IH. }
+    induction t as [arm name|ext sp0 gaps items sp1 IH|arm sp0 gaps items sp1 IH|arm sp0 sp1 sp2 sp3 x y IHx IHy] using sterm_ind';
+      cbn [erase_t]; [reflexivity | now rewrite Hl | now rewrite Hl | now rewrite IHx, IHy].
+  Qed.
+
+  Lemma erase_idem s : erase (erase s) = erase s.
+  Proof.
+    unfold erase. cbn [sn_lead sn_budget sn_term sn_punct sn_stamp sn_truth sn_trail]. rewrite erase_idem_t.
+    destruct (sn_budget s) as [[b g]|], (sn_punct s) as [[g1 a]|], (sn_stamp s) as [[g2 x]|], (sn_truth s) as [[g3 n]|]; reflexivity.
+  Qed.
+
+  (* instance: the formatter's output with every space removed *)
+  Corollary C09_value_nospace (v : narsese F) :
+    wf_value ia E v = true -> vals_ok F okn v = true ->
+    exists st, parse_narsese F fread fzero in01 ia E
+                 (render_narsese E (erase (canon_narsese F fshow 1 1 (sst E (nv_term v)) v))) = POk v st.
+  Proof. intros Hw Hv. apply C09_value_plain; auto. apply erase_idem. Qed.
+
+  Theorem C15_cast_plain (s : sentence F) :
+    wf_term ia E (s_term s) = true -> sent_vals_ok F okn s = true ->
+    exists st, parse_narsese F fread fzero in01 ia E (fmt_task F fshow E (cast_to_task s)) = POk (NTask (s, BudgetEmpty)) st.
+  Proof.
+    destruct (plain_sent_side ia E Hia Hia2 HE) as (H1 & H2 & H3 & H4 & H5 & H6 & H7).
+    now apply (C15_cast F fshow fread fzero in01 okn ia E 1 1).
+  Qed.
+End Plain.
+
+(* ---- spelled out per format ---- *)
+Theorem C01_value_ascii : forall ia : N -> bool, alnum_facts ia = true -> alnum_facts2 ia = true ->
+  forall (F : Type) (fshow : F -> str) (fread : str -> option F) (fzero : F) (in01 okn : F -> bool),
+    fread [] = None -> in01 fzero = true -> (forall x, okn x = true -> in01 x = true) ->
+    (forall x, okn x = true -> fread (fshow x) = Some x) ->
+    (forall x, okn x = true -> fshow x <> [] /\ Forall (fun c => is_float_char c = true) (fshow x)) ->
+    forall v : narsese F, wf_value ia FORMAT_ASCII v = true -> vals_ok F okn v = true ->
+      exists st, parse_narsese F fread fzero in01 ia FORMAT_ASCII (fmt_narsese F fshow FORMAT_ASCII v) = POk v st.
+Proof. intros ia H H2. apply C01_value_plain; auto. now left. Qed.
+
+Theorem C01_value_latex : forall ia : N -> bool, alnum_facts ia = true -> alnum_facts2 ia = true ->
+  forall (F : Type) (fshow : F -> str) (fread : str -> option F) (fzero : F) (in01 okn : F -> bool),
+    fread [] = None -> in01 fzero = true -> (forall x, okn x = true -> in01 x = true) ->
+    (forall x, okn x = true -> fread (fshow x) = Some x) ->
+    (forall x, okn x = true -> fshow x <> [] /\ Forall (fun c => is_float_char c = true) (fshow x)) ->
+    forall v : narsese F, wf_value ia FORMAT_LATEX v = true -> vals_ok F okn v = true ->
+      exists st, parse_narsese F fread fzero in01 ia FORMAT_LATEX (fmt_narsese F fshow FORMAT_LATEX v) = POk v st.
+Proof. intros ia H H2. apply C01_value_plain; auto. now right. Qed.
+
+Theorem C01_value_ascii_std :
+  forall (F : Type) (fshow : F -> str) (fread : str -> option F) (fzero : F) (in01 okn : F -> bool),
+    fread [] = None -> in01 fzero = true -> (forall x, okn x = true -> in01 x = true) ->
+    (forall x, okn x = true -> fread (fshow x) = Some x) ->
+    (forall x, okn x = true -> fshow x <> [] /\ Forall (fun c => is_float_char c = true) (fshow x)) ->
+    forall v : narsese F, wf_value is_alnum_std FORMAT_ASCII v = true -> vals_ok F okn v = true ->
+      exists st, parse_narsese F fread fzero in01 is_alnum_std FORMAT_ASCII (fmt_narsese F fshow FORMAT_ASCII v) = POk v st.
+Proof. exact (C01_value_ascii is_alnum_std alnum_facts_std alnum_facts2_std). Qed.
+
+Theorem C01_value_latex_std :
+  forall (F : Type) (fshow : F -> str) (fread : str -> option F) (fzero : F) (in01 okn : F -> bool),
+    fread [] = None -> in01 fzero = true -> (forall x, okn x = true -> in01 x = true) ->
+    (forall x, okn x = true -> fread (fshow x) = Some x) ->
+    (forall x, okn x = true -> fshow x <> [] /\ Forall (fun c => is_float_char c = true) (fshow x)) ->
+    forall v : narsese F, wf_value is_alnum_std FORMAT_LATEX v = true -> vals_ok F okn v = true ->
+      exists st, parse_narsese F fread fzero in01 is_alnum_std FORMAT_LATEX (fmt_narsese F fshow FORMAT_LATEX v) = POk v st.
+Proof. exact (C01_value_latex is_alnum_std alnum_facts_std alnum_facts2_std). Qed.
+
+(* ---- Han: conditional on the back-off conditions of the canonical input ---- *)
+Lemma han_sent_side :
+  parse_ok FORMAT_HAN = true /\ sent_ok FORMAT_HAN = true /\ fmt_tables_ok FORMAT_HAN 0 1 = true /\
+  fmt_space_ok FORMAT_HAN = true /\ arms_cover FORMAT_HAN = true.
+Proof. vm_compute. repeat split; reflexivity. Qed.
+
+Theorem C01_value_han : forall (ia : N -> bool)
+  (F : Type) (fshow : F -> str) (fread : str -> option F) (fzero : F) (in01 okn : F -> bool),
+    fread [] = None -> in01 fzero = true -> (forall x, okn x = true -> in01 x = true) ->
+    (forall x, okn x = true -> fread (fshow x) = Some x) ->
+    (forall x, okn x = true -> fshow x <> [] /\ Forall (fun c => is_float_char c = true) (fshow x)) ->
+    forall v : narsese F, wf_value ia FORMAT_HAN v = true -> vals_ok F okn v = true ->
+      sent_unamb F fread fzero in01 FORMAT_HAN (unamb ia FORMAT_HAN)
+                 (canon_narsese F fshow 0 1 (sst FORMAT_HAN (nv_term v)) v) = true ->
+      exists st, parse_narsese F fread fzero in01 ia FORMAT_HAN (fmt_narsese F fshow FORMAT_HAN v) = POk v st.
+Proof.
+  intros ia F fshow fread fzero in01 okn H1 H2 H3 H4 H5. destruct han_sent_side as (S1 & S2 & S3 & S4 & S5).
+  now apply (C01_value_cond F fshow fread fzero in01 okn ia FORMAT_HAN 0 1).
+Qed.
+
+(* ================================================================================== *)
+(* 8. non-vacuity                                                                       *)
+(* the toy float oracle of Proofs/EnumSentP.v (a number IS its text) satisfies the oracle hypotheses with
+   okn := in01 := toy_in01; Rust's Unicode table satisfies alnum_facts and alnum_facts2 *)
+Lemma toy_oracles_final :
+  toy_read [] = None /\ toy_in01 toy_zero = true /\ (forall x, toy_in01 x = true -> toy_in01 x = true) /\
+  (forall x, toy_in01 x = true -> toy_read (toy_show x) = Some x) /\
+  (forall x, toy_in01 x = true -> toy_show x <> [] /\ Forall (fun c => is_float_char c = true) (toy_show x)).
+Proof. destruct toy_oracles_ok as (H1 & H2 & H3 & H4). repeat split; auto; now apply H4. Qed.
+
+(* a task with a budget, a fixed stamp and a truth over the term that uses all 30 constructors:
+   $0.5;0.75;1$ <...>. :!-12: %1;0.9% *)
+Definition ex_task_value : narsese str :=
+  NTask (SJudgement ex_term (TruthDouble [49]%N [48; 46; 57]%N) (Fixed (-12)),
+         BudgetTriple [48; 46; 53]%N [48; 46; 55; 53]%N [49]%N).
+(* the back-off case: the judgement `$x. :|: %1;0.9%` (ASCII) / `\$x. |\!\!\!\!\!\Rightarrow{} \langle{}1,0.9\rangle{}` (LaTeX) *)
+Definition ex_dollar_value : narsese str :=
+  NSentence (SJudgement (TName VariableIndependent [120]%N) (TruthDouble [49]%N [48; 46; 57]%N) Present).
+
+Definition ex_hyp (E : efmt) (v : narsese str) : bool := wf_value is_alnum_std E v && vals_ok str toy_in01 v.
+Definition ex_roundtrip (E : efmt) (v : narsese str) : option (narsese str) :=
+  match parse_narsese str toy_read toy_zero toy_in01 is_alnum_std E (fmt_narsese str toy_show E v) with POk r _ => Some r | _ => None end.
+Definition ex_nospace (E : efmt) (v : narsese str) : option (narsese str) :=
+  match parse_narsese str toy_read toy_zero toy_in01 is_alnum_std E
+          (render_narsese E (erase (canon_narsese str toy_show 1 1 (sst E (nv_term v)) v))) with POk r _ => Some r | _ => None end.
+
+Lemma ex_final_task :
+  alnum_facts is_alnum_std = true /\ alnum_facts2 is_alnum_std = true /\
+  forallb (fun E => ex_hyp E ex_task_value) [FORMAT_ASCII; FORMAT_LATEX] = true /\
+  map (fun E => ex_roundtrip E ex_task_value) [FORMAT_ASCII; FORMAT_LATEX] = [Some ex_task_value; Some ex_task_value] /\
+  map (fun E => ex_nospace E ex_task_value) [FORMAT_ASCII; FORMAT_LATEX] = [Some ex_task_value; Some ex_task_value].
+Proof. split; [|split; [|split; [|split]]]; vm_compute; reflexivity. Qed.
+
+Lemma ex_final_dollar :
+  forallb (fun E => ex_hyp E ex_dollar_value) [FORMAT_ASCII; FORMAT_LATEX] = true /\
+  fmt_narsese str toy_show FORMAT_ASCII ex_dollar_value = [36; 120; 46; 32; 58; 124; 58; 32; 37; 49; 59; 48; 46; 57; 37]%N /\
+  forallb (fun E => starts (task_budget_brackets_0 E) (fmt_narsese str toy_show E ex_dollar_value)) [FORMAT_ASCII; FORMAT_LATEX] = true /\
+  map (fun E => ex_roundtrip E ex_dollar_value) [FORMAT_ASCII; FORMAT_LATEX] = [Some ex_dollar_value; Some ex_dollar_value] /\
+  map (fun E => ex_nospace E ex_dollar_value) [FORMAT_ASCII; FORMAT_LATEX] = [Some ex_dollar_value; Some ex_dollar_value] /\
+  render_narsese FORMAT_ASCII (erase (canon_narsese str toy_show 1 1 (sst FORMAT_ASCII (nv_term ex_dollar_value)) ex_dollar_value))
+    = [36; 120; 46; 58; 124; 58; 37; 49; 59; 48; 46; 57; 37]%N.
+Proof. split; [|split; [|split; [|split; [|split]]]]; vm_compute; reflexivity. Qed.
+
+(* C15: the text of cast_to_task of a question *)
+Definition ex_question_sentence : sentence str := SQuestion ex_term Eternal.
+Lemma ex_final_cast :
+  forallb (fun E => wf_term is_alnum_std E (s_term ex_question_sentence) && sent_vals_ok str toy_in01 ex_question_sentence)
+          [FORMAT_ASCII; FORMAT_LATEX] = true /\
+  map (fun E => match parse_narsese str toy_read toy_zero toy_in01 is_alnum_std E
+                        (fmt_task str toy_show E (cast_to_task ex_question_sentence)) with POk r _ => Some r | _ => None end)
+      [FORMAT_ASCII; FORMAT_LATEX] =
+  [Some (NTask (ex_question_sentence, BudgetEmpty)); Some (NTask (ex_question_sentence, BudgetEmpty))].
+Proof. split; vm_compute; reflexivity. Qed.
+
+Lemma ex_final_nospace :
+  map (fun E => ex_nospace E ex_task_value) [FORMAT_ASCII; FORMAT_LATEX] = [Some ex_task_value; Some ex_task_value] /\
+  map (fun E => ex_nospace E ex_dollar_value) [FORMAT_ASCII; FORMAT_LATEX] = [Some ex_dollar_value; Some ex_dollar_value] /\
+  render_narsese FORMAT_ASCII (erase (canon_narsese str toy_show 1 1 (sst FORMAT_ASCII (nv_term ex_dollar_value)) ex_dollar_value))
+    = [36; 120; 46; 58; 124; 58; 37; 49; 59; 48; 46; 57; 37]%N.
+Proof. split; [|split]; vm_compute; reflexivity. Qed.
+
+(* ================================================================================== *)
+(* 9. statements for the Props files                                                   *)
+Theorem C15_cast_std : forall E : efmt, plain E ->
+  forall (F : Type) (fshow : F -> str) (fread : str -> option F) (fzero : F) (in01 okn : F -> bool),
+    fread [] = None -> in01 fzero = true -> (forall x : F, okn x = true -> in01 x = true) ->
+    (forall x : F, okn x = true -> fread (fshow x) = Some x) ->
+    (forall x : F, okn x = true -> fshow x <> [] /\ Forall (fun c : N => is_float_char c = true) (fshow x)) ->
+    forall s : sentence F,
+      wf_term is_alnum_std E (s_term s) = true -> sent_vals_ok F okn s = true ->
+      exists st : pstate F,
+        parse_narsese F fread fzero in01 is_alnum_std E (fmt_task F fshow E (cast_to_task s)) = POk (NTask (s, BudgetEmpty)) st.
+Proof. intros E HE. exact (C15_cast_plain is_alnum_std E alnum_facts_std alnum_facts2_std HE). Qed.
+
+Lemma alnum_facts2_meaning : forall ia : N -> bool,
+  alnum_facts2 ia = forallb (fun c => negb (ia c)) [33; 36; 46; 63; 64; 191].
+Proof. reflexivity. Qed.
+
+Lemma final_fmt_ok_meaning : forall (ia : N -> bool) (E : efmt),
+  final_fmt_ok ia E =
+  forallb (fun x => head_not_name ia E (fst (fst x) E)) punct_arms
+  && budget_requires_close
+  && nonempty (task_budget_brackets_1 E) && memb (last (task_budget_brackets_1 E) 0) (task_budget_brackets_1 E)
+  && forallb (fun lb => diverge (task_budget_brackets_0 E) lb) (left_brackets E)
+  && forallb (fun p => match p with
+                       | [] => head_not_name ia E (task_budget_brackets_0 E)
+                       | _ => diverge (task_budget_brackets_0 E) p || str_eqb p (task_budget_brackets_0 E)
+                       end) (map (fun a => fst a E) parse_atom_arms)
+  && negb (name_charb ia E (last (task_budget_brackets_1 E) 0))
+  && negb (is_int_char (last (task_budget_brackets_1 E) 0)) && negb (is_float_char (last (task_budget_brackets_1 E) 0))
+  && forallb (fun kw => forallb (fun c => negb (c =? last (task_budget_brackets_1 E) 0)) kw)
+       (space_parse E :: map (fun x => fst (fst x) E) punct_arms
+        ++ sentence_stamp_brackets_0 E :: sentence_stamp_brackets_1 E :: map (fun x => fst (fst x) E) stamp_arms
+        ++ [sentence_truth_brackets_0 E; sentence_truth_brackets_1 E; sentence_truth_separator E]).
+Proof. reflexivity. Qed.
+
+Lemma final_fmt_ok_plain : forall ia : N -> bool, alnum_facts ia = true -> alnum_facts2 ia = true ->
+  final_fmt_ok ia FORMAT_ASCII = true /\ final_fmt_ok ia FORMAT_LATEX = true.
+Proof. intros ia H H2. split; [now apply final_fmt_ok_ascii | now apply final_fmt_ok_latex]. Qed.
+
+Lemma follows_ok_meaning : forall s : snarsese,
+  follows_ok s = has (sn_punct s) || (negb (has (sn_stamp s)) && negb (has (sn_truth s))).
+Proof. reflexivity. Qed.
+
+Lemma sitems_ok_meaning : forall s : snarsese,
+  sitems_ok s =
+  match sn_punct s with Some (_, a) => is_some (nth_error punct_arms a) | None => true end
+  && match sn_stamp s with
+     | Some (_, x) => match stamp_kind (ss_arm x) with Some SAFixed => forallb is_int_char (ss_int x) | _ => true end
+     | None => true
+     end
+  && match sn_truth s with Some (_, n) => forallb (forallb is_float_char) (nl_texts n) | None => true end.
+Proof. reflexivity. Qed.
 (* END *)
